@@ -925,6 +925,11 @@ func (w *walker) instr(s *wstate, b *ssa.BasicBlock, in ssa.Instruction) {
 				s.env[in] = v
 				return
 			}
+			if at.Op == "cellof" {
+				// the cell of a factory's parameter: holds the argument of the factory call
+				s.env[in] = w.refine(s, AV{T: at.Args[0]})
+				return
+			}
 			if a, ok := at.V.(*ssa.Alloc); ok && at.Op == "alloc" {
 				// a cell of an enclosing function, read through a captured variable of an inlined closure
 				if v, ok := s.mem[a]; ok {
@@ -992,17 +997,30 @@ func (w *walker) instr(s *wstate, b *ssa.BasicBlock, in ssa.Instruction) {
 		s.env[in] = w.refine(s, AV{T: t})
 	case *ssa.Call:
 		name := calleeName(in.Common())
+		var boundRecv *Term
 		if name == "dyn" {
 			if ft := w.val(s, in.Common().Value).T; ft != nil {
 				if ft = w.tableEntry(s, ft); ft.Op == "fn" {
 					if f, ok := ft.V.(*ssa.Function); ok && f.Parent() == nil {
 						name = funcName(f) // a named function behind a function value
 					}
+				} else if ft.Op == "closure" && len(ft.Args) == 1 {
+					// a method value (`dec := enc.DecodeString; dec(x)`): the call of that method on the bound receiver
+					if mc, ok := ft.V.(*ssa.MakeClosure); ok {
+						if f, ok := mc.Fn.(*ssa.Function); ok && strings.HasSuffix(f.Name(), "$bound") && curProgram != nil && !curProgram.InModule(f) {
+							name = strings.TrimSuffix(funcName(f), "$bound")
+							boundRecv = ft.Args[0]
+						}
+					}
 				}
 			}
 		}
 		t := &Term{Op: "call", Name: name, V: in, Typ: in.Type()}
 		var vals []AV
+		if boundRecv != nil {
+			t.Args = append(t.Args, boundRecv)
+			vals = append(vals, AV{T: boundRecv})
+		}
 		if in.Common().IsInvoke() || name == "dyn" {
 			a := w.val(s, in.Common().Value)
 			t.Args = append(t.Args, a.T)
@@ -1210,6 +1228,99 @@ func regClosure(mu *ssa.MapUpdate) *ssa.MakeClosure {
 	}
 	mc, _ := stripBox(mu.Value).(*ssa.MakeClosure)
 	return mc
+}
+
+// closureVia: the closure a value stands for — a closure made on the spot (possibly held in a once-assigned variable),
+// or the result of a module function all of whose returns hand out one and the same closure (a closure factory:
+// the body of a lazy entry extracted into a named constructor). call is the factory call, nil for a direct closure.
+func closureVia(v ssa.Value) (mc *ssa.MakeClosure, call *ssa.Call) {
+	v = stripBox(v)
+	if m, ok := v.(*ssa.MakeClosure); ok {
+		return m, nil
+	}
+	cl, ok := v.(*ssa.Call)
+	if !ok {
+		return nil, nil
+	}
+	g := cl.Common().StaticCallee()
+	if g == nil || g.Blocks == nil {
+		return nil, nil
+	}
+	for _, b := range g.Blocks {
+		for _, in := range b.Instrs {
+			r, ok := in.(*ssa.Return)
+			if !ok {
+				continue
+			}
+			if len(r.Results) == 0 {
+				return nil, nil
+			}
+			m, ok := stripBox(r.Results[0]).(*ssa.MakeClosure)
+			if !ok || mc != nil && mc != m {
+				return nil, nil
+			}
+			mc = m
+		}
+	}
+	if mc == nil {
+		return nil, nil
+	}
+	return mc, cl
+}
+
+// bindFreeVarsVia: like bindFreeVars; for a closure handed out by a factory, a captured parameter of the factory is
+// bound to the argument of the factory call (in the caller's terms).
+func bindFreeVarsVia(mc *ssa.MakeClosure, call *ssa.Call) map[ssa.Value]AV {
+	if mc == nil {
+		return nil
+	}
+	if call == nil {
+		return bindFreeVars(mc)
+	}
+	fn := mc.Fn.(*ssa.Function)
+	g := mc.Parent()
+	ctb := NewTB()
+	argOf := func(p *ssa.Parameter) *Term {
+		for k, q := range g.Params {
+			if q == p && k < len(call.Call.Args) {
+				return ctb.Of(call.Call.Args[k])
+			}
+		}
+		return nil
+	}
+	out := map[ssa.Value]AV{}
+	for i, fv := range fn.FreeVars {
+		if i >= len(mc.Bindings) {
+			continue
+		}
+		switch b := mc.Bindings[i].(type) {
+		case *ssa.Parameter:
+			if t := argOf(b); t != nil {
+				out[fv] = AV{T: t}
+				continue
+			}
+		case *ssa.Alloc:
+			// the cell a captured parameter was spilled to: holds the argument, as long as nothing else is stored there
+			var only *ssa.Parameter
+			n := 0
+			if b.Referrers() != nil {
+				for _, r := range *b.Referrers() {
+					if st, ok := r.(*ssa.Store); ok && st.Addr == ssa.Value(b) {
+						n++
+						only, _ = st.Val.(*ssa.Parameter)
+					}
+				}
+			}
+			if n == 1 && only != nil && cellStableForClosures(b) {
+				if t := argOf(only); t != nil {
+					out[fv] = AV{T: &Term{Op: "cellof", Args: []*Term{t}, Typ: b.Type()}}
+					continue
+				}
+			}
+		}
+		out[fv] = AV{T: ctb.Of(mc.Bindings[i])}
+	}
+	return out
 }
 
 // bindFreeVars: the captured variables of the closure created at mc, bound to the creating function's terms, so that
